@@ -18,7 +18,7 @@ echo "SEED $(basename $(dirname $D))/$(basename $D): demo unpatched rc=$RA patch
 cd /verif
 for P in "$@"; do
   OUT="$(VERIF_REPO="$B" VERIF_EVIDENCE_DIR="$B/evidence" ./check "$P" quick 2>&1)"; RC=$?
-  if [ $RC -eq 1 ]; then echo "  CAUGHT by $P: $(echo "$OUT" | grep -m1 'mechanism:' | cut -c1-260)"
+  if [ $RC -eq 1 ]; then echo "  CAUGHT by $P: [$(echo "$OUT" | grep -o 'violations=[0-9]*' | tail -1), $(echo "$OUT" | grep -c 'mechanism:') mechanism(s)] $(echo "$OUT" | grep -m1 'mechanism:' | cut -c1-260)"
   else echo "  MISSED by $P (rc=$RC): $(echo "$OUT" | tail -1 | cut -c1-200)"; fi
 done
 rm -rf "$A" "$B"
